@@ -23,6 +23,7 @@ HasAccessibles.__init_subclass__ machinery, so that programs (C09) and configura
                    ['R', {'description', 'datatype', properties}]                   a module Property(...)
     impl           'w:<p>' recording write method   'r:<p>' recording read method   'poll' recording doPoll
                    'echo' (self, arg) -> arg        'noarg' (self) -> None          'kw:a,b?' keyword function for a struct argument
+                   'kwargs' (self, **kwds)          'wout' / 'wloop' write_target of a controlled output / of its controller
                    'chk:<p>:<max>' check_<p> raising RangeError above max            'doc:<text>' argument-less method with docstring
 
 The recording fake driver appends to `self.drvlog` (a plain list on the instance): ['write', p, repr(value)],
@@ -120,6 +121,24 @@ def make_impl(impl):
         ns = {}
         exec(f'def kwfunc(self, {args}):\n    """keyworded"""\n    return {{{keys}}}\n', ns)  # pylint: disable=exec-used
         return ns['kwfunc']
+    if kind == 'kwargs':
+        def kwfunc(self, **kwds):
+            """any members"""
+            return dict(kwds)
+        return kwfunc
+    if kind == 'wout':        # write_target of an output module with HasControlledBy: manual setting takes control back
+        def write_target(self, value):
+            drvlog(self).append(['write', 'target', repr(value)])
+            self.self_controlled()
+            return value
+        return write_target
+    if kind == 'wloop':       # write_target of a controller with HasOutputModule: takes control of its output module
+        def write_target(self, value):
+            drvlog(self).append(['write', 'target', repr(value)])
+            self.activate_control()
+            self.output_module.update_target(self.name, min(100.0, value))
+            return value
+        return write_target
     if kind == 'chk':
         pname, _, limit = rest.partition(':')
 
